@@ -633,6 +633,8 @@ type aframe struct {
 	names []string  // how the parameters are spelled in condition labels
 	// phiSrc: the operand each phi took when it was last evaluated on this path (copy on write)
 	phiSrc map[*ssa.Phi]ssa.Value
+	// backs: how often each loop header was reached over a back edge in this activation (copy on write)
+	backs map[*ssa.BasicBlock]int
 }
 
 type astate struct {
@@ -716,6 +718,11 @@ type Exec struct {
 	// becomes cond ? a : b (if-conversion). Without it such a branch forks the state.
 	Merge  bool
 	ipdoms map[*ssa.Function]map[*ssa.BasicBlock]*ssa.BasicBlock
+	// LoopBound > 0: a loop whose exit test does not fold is followed for at most LoopBound
+	// iterations after the first; the state that would go round once more is dropped and counted
+	// in Cut (an under-approximation the rule has to justify: later iterations repeat the last).
+	LoopBound int
+	Cut       int
 	// Unsound collects the places where the abstraction had to ignore an effect (store through
 	// an unknown pointer, defer, go, …); a rule that needs exactness refuses when non-empty.
 	Unsound []string
@@ -920,7 +927,7 @@ func (ex *Exec) run(s *astate) ([]*astate, *AOutcome, error) {
 			}
 			if k, ok := cv.ConstVal(); ok {
 				ex.jump(fr, k == 0)
-				continue
+				continue // (a loop whose test folds is unrolled whatever LoopBound says)
 			}
 			if ex.Merge && cv.K == AInt && len(cv.Bits) == 1 && cv.Bits[0].Kind == BSrc {
 				if ex.tryMerge(s, fr, cv.Bits[0]) {
@@ -937,9 +944,19 @@ func (ex *Exec) run(s *astate) ([]*astate, *AOutcome, error) {
 			ex.refine(t, f, fr, cond)
 			ex.jump(t.frames[len(t.frames)-1], false)
 			ex.jump(f.frames[len(f.frames)-1], true)
-			return []*astate{f, t}, nil, nil
+			forks := []*astate{}
+			if !ex.arrive(f.frames[len(f.frames)-1]) {
+				forks = append(forks, f)
+			}
+			if !ex.arrive(t.frames[len(t.frames)-1]) {
+				forks = append(forks, t)
+			}
+			return forks, nil, nil
 		case *ssa.Jump:
 			fr.pred, fr.block, fr.pc = fr.block, fr.block.Succs[0], 0
+			if ex.arrive(fr) {
+				return []*astate{}, nil, nil
+			}
 			continue
 		case *ssa.Panic:
 			return nil, &AOutcome{Conds: s.conds, Mem: s.mem, Trace: s.trace, Panicked: true, Facts: s.facts, SFacts: s.sfacts, Excl: s.excl, Nils: s.nils}, nil
@@ -1567,6 +1584,37 @@ func (ex *Exec) jump(fr *aframe, second bool) {
 	fr.pred, fr.block, fr.pc = fr.block, fr.block.Succs[i], 0
 }
 
+// arrive is called when fr has just moved to a new block; it reports whether the state is to be
+// dropped because the block is a loop header reached over a back edge once too often.
+func (ex *Exec) arrive(fr *aframe) bool {
+	if ex.LoopBound <= 0 || fr.pred == nil {
+		return false
+	}
+	b := fr.block
+	if !b.Dominates(fr.pred) {
+		if fr.backs[b] > 0 { // the loop is entered afresh
+			nb := make(map[*ssa.BasicBlock]int, len(fr.backs))
+			for k, v := range fr.backs {
+				nb[k] = v
+			}
+			delete(nb, b)
+			fr.backs = nb
+		}
+		return false
+	}
+	nb := make(map[*ssa.BasicBlock]int, len(fr.backs)+1)
+	for k, v := range fr.backs {
+		nb[k] = v
+	}
+	nb[b]++
+	fr.backs = nb
+	if nb[b] > ex.LoopBound {
+		ex.Cut++
+		return true
+	}
+	return false
+}
+
 // label renders a branch condition in the entry function's vocabulary where possible.
 func (ex *Exec) label(s *astate, fr *aframe, cond ssa.Value) string {
 	p := NewPather(fr.fn)
@@ -1961,7 +2009,22 @@ func (ex *Exec) binop(s *astate, fr *aframe, x *ssa.BinOp) AVal {
 			}
 		}
 		if x.Op == token.ADD {
-			return AVal{K: AStr, Path: "concat", Lo: -1, Len: -1}
+			// a concatenation keeps its parts (Elems) and is named after them
+			var parts []AVal
+			for _, o := range []AVal{l, r} {
+				if o.K == AStr && !o.IsConst && strings.HasPrefix(o.Path, "cat(") && len(o.Elems) > 0 {
+					parts = append(parts, o.Elems...)
+				} else if n := len(parts); n > 0 && o.K == AStr && o.IsConst && parts[n-1].K == AStr && parts[n-1].IsConst {
+					parts[n-1] = AVal{K: AStr, IsConst: true, Const: parts[n-1].Const + o.Const, Len: parts[n-1].Len + o.Len}
+				} else {
+					parts = append(parts, o)
+				}
+			}
+			var ns []string
+			for _, o := range parts {
+				ns = append(ns, argName(o))
+			}
+			return AVal{K: AStr, Path: "cat(" + strings.Join(ns, ",") + ")", Lo: -1, Len: -1, Elems: parts}
 		}
 		// s == "" / s != "" already decided on this path
 		if (x.Op == token.EQL || x.Op == token.NEQ) && l.K == AStr && r.K == AStr && l.IsConst != r.IsConst {
@@ -2901,3 +2964,6 @@ func (ex *Exec) intrinsic(s *astate, name string, args []AVal, x *ssa.Call) (AVa
 	}
 	return AVal{}, false
 }
+
+// SameAVal reports whether two abstract values are structurally identical.
+func SameAVal(a, b AVal) bool { return sameAVal(a, b) }
